@@ -44,7 +44,7 @@ fn get_array(array: &dyn ValueView) -> (r: Result<Vec<ValueCow>>)
 //@ item crates/lib/src/stdlib/blocks/for_block.rs :: enum Range
 //@ kind enum
 //@ vis pub
-//@ editall <<<'r>>> => <<>> why: the stand-in ValueCow has no lifetime parameter
+//@ editre <<<'\w+>>> => <<>> why: the stand-in ValueCow has no lifetime parameter
 //@ end
 
 /// the integer an argument expression denotes (None: it does not exist or is not a whole number)
